@@ -175,6 +175,8 @@ def showVal : Val → String
   | .table _ => "otable"
   | .func _ => "ofunction"
   | .builtin _ => "ofunction"
+  | .thread _ => "othread"
+  | .wrapfn _ => "ofunction"
 
 def valOfV : V → Val
   | .nil => .nil
